@@ -13,10 +13,18 @@ def instances(tier):
         out.append({'entry': 'h_target', 'params': [L, 1], 'bound': 'request target "/" + every string of length %d over { . / %% 2 e E f 5 a }' % L})
     for L in ((5,) if q else (5, 6)):
         out.append({'entry': 'h_target', 'params': [L, 2], 'bound': 'request target "/" + every string of length %d over { . / %% 0 a } (can spell %%00 and broken escapes)' % L})
+    for L in ((1, 2, 3, 4) if q else (1, 2, 3, 4, 5, 6)):
+        out.append({'entry': 'h_target', 'params': [L, 3], 'bound': 'request target (no leading slash) = every string of length %d over { # ? / a . %% = }' % L})
     for fr in (0, 1, 2):
         for hc in (0, 1, 2):
             out.append({'entry': 'h_request', 'params': [fr, hc, 0], 'bound': 'complete request (framing %d, header-name case %d) with symbolic query value, header value and body bytes' % (fr, hc)})
         out.append({'entry': 'h_request', 'params': [fr, 1, 1], 'bound': 'the same request cut at every byte offset (peer closes early), framing %d' % fr})
+    FS = ['/in.txt', '/../secret.txt', '/%2e%2e/secret.txt', '/%252e%252e/secret.txt', '/.%252e/secret.txt', '/sub/../../secret.txt', '/%2e%2e%2fsecret.txt', '/..%252fsecret.txt']
+    for ti, t in enumerate(FS):
+        out.append({'entry': 'h_fileserver', 'params': [ti, 0, 0], 'bound': 'file server rooted at a directory, target %s' % t})
+        if ti == 0: continue
+        for pos in range(1, len(t) - 11, 2 if q else 1):
+            out.append({'entry': 'h_fileserver', 'params': [ti, pos, 2], 'bound': 'file server, target %s with characters %d..%d arbitrary from { . / %% 2 5 e }' % (t, pos, pos + 1)})
     for mode in (0, 1, 2):
         out.append({'entry': 'h_query', 'params': [mode], 'bound': 'query parameter with %s' % ('one raw symbolic character (plus means space)', 'a percent-encoded value byte, every pair of hex digits', 'a percent-encoded key byte, every pair of hex digits')[mode]})
     for L in ((0, 1, 2) if q else (0, 1, 2, 3)):
